@@ -160,10 +160,21 @@ def main(argv=None):
                 jobs.append((k, v))
         conf = _run(pid, [gmap[v["group"]] for _, v in jobs], tier, seed, None, a.workers, True,
                     onlys=[v["case"] for _, v in jobs])
+        retry = []
         for (k, v), r in zip(jobs, conf):
             keys = {x["key"] for x in r["violations"] if x["case"] == v["case"]}
             if k not in keys:
-                nondeterministic.append((k, v["case"]))
+                retry.append((k, v))
+        if retry:
+            # a violation that depends on state carried between the cases of one group (e.g. a value frozen into a
+            # compiled function by the first call) does not reproduce in isolation: re-run the whole group once
+            conf2 = _run(pid, [gmap[v["group"]] for _, v in retry], tier, seed, None, a.workers, True)
+            for (k, v), r in zip(retry, conf2):
+                keys = {x["key"] for x in r["violations"]}
+                if k not in keys:
+                    nondeterministic.append((k, v["case"]))
+                else:
+                    sys.stderr.write("note: key %s reproduces only in the context of its whole group (history dependent)\n" % k)
 
     replay_paths = {}
     if unknown:
